@@ -126,6 +126,26 @@ CHECKS["C13"] = dict(
     note="Quick: 8 configurations (alternating with the seed), thorough: all 16 plus 120 further generating parameter sets. Noise-free data; emcee/CMA strategies absent.",
     ref="5 C13")
 
+# what the fifth round of seeded changes added to each check (appended to the level text)
+ROUND5 = {
+ "C01": " Round 5: detectors given as spherical point lists (result coordinates must be the detector's), a sphere behind Lens(Mie), hologram(p) = hologram(-p).",
+ "C02": " Round 5: layered spheres whose layers all lie below the medium's index, sharing one index, at size parameters 8-150.",
+ "C03": " Round 5: clusters solved with the biconjugate-gradient option (meth=0, eps=1e-10) in the energy relations.",
+ "C04": " Round 5: detector planes at non-zero height (grids and point lists) among the 22 requests.",
+ "C05": " Round 5: a dimer written exactly along y and a tilted spheroid behind Lens(Tmatrix) among the 15 configurations.",
+ "C06": " Round 5: identical spheres at different depths (member kind twin; members alone get fresh theory objects), labelled-array polarisations with rows of any length.",
+ "C07": " Round 5: the full frame rebuilt from every subset (FitResult.hologram) equals the direct calculation position by position.",
+ "C11": " Round 5: a dictionary handed to from_parameters is only read (same dictionary twice: same object, no entries removed).",
+ "C12": " Round 5: the set of parameter names of every replayed model is the specification's; a 17-parameter model against a hand-built scatterer.",
+ "C14": " Round 5: scale / unscale on arrays, the argument only read.",
+ "C15": " Round 5: non-dyadic float32 arguments; models tied by add_tie across sections (scatterer with scaling, theory parameter or noise) keep names, ties and value placement over three cycles.",
+ "C16": " Round 5: TIFF export under every scaling option (auto, a pair equal to / wider than the image's range, None on an image within [0, 1]) with the quantisation step of that option; images with an illumination axis of one label.",
+ "C18": " Round 5: every normalize state also in units of 1e-12, 1e-6 and 1e9; background correction with a dead denominator pixel (inside / on an edge) against a hand oracle.",
+ "C19": " Round 5: composites in microns and in metres, unions / differences / intersections turned twice, integer-typed coordinates convert like floats.",
+}
+for _k, _v in ROUND5.items():
+    CHECKS[_k]["text"] += _v
+
 NOT_APPLICABLE = []
 
 
@@ -164,7 +184,7 @@ def main():
                      "serves_properties": sorted(claimed),
                      "kind_free_text": "TLA+ specifications (spec/*.tla) model-checked with TLC; dumped state graphs replayed into the real HoloPy code and traces recorded from the real code validated by TLC trace specifications"},
                     {"name": "tla-conformance-extensions", "path": "/verif/extras", "serves_properties": [],
-                     "kind_free_text": "the same method on behaviour beyond the listed properties (checks/x*.py, spec modules SamplingSession, PriorUpdate, Display, ScattererTree, Stacking, DictOps); ./extras [--tier T], evidence/X*.json"}],
+                     "kind_free_text": "the same method on behaviour beyond the listed properties (checks/x*.py, spec modules SamplingSession, PriorUpdate, Display, ScattererTree, Stacking, DictOps, PointSource, Shapes); ./extras [--tier T], evidence/X*.json"}],
         "checks": checks,
         "notes": "See DESIGN.md. ./check <ID> [--tier quick|thorough]; exit 0 held / 1 VIOLATION / 2 machinery failure. known_findings.json lists repaired and open genuine defects. seeded/ holds the confirmed seeded changes (lib/regress_mutants.sh re-runs them all in scratch worktrees).",
         "not_applicable": na,
